@@ -319,15 +319,15 @@ func (cl *Client) VerifPickConn() (*Conn, error) { return cl.pickConn() }
 // VerifTransport returns the transport the connection runs on.
 func (c *Conn) VerifTransport() net.Conn { return c.c }
 
-// VerifTransports returns the transports of the connections the Client holds,
-// front of the list first, and whether the Client has been closed.
-func (cl *Client) VerifTransports() ([]net.Conn, bool) {
+// VerifConns returns the connections the Client holds, front of the list
+// first, and whether the Client has been closed.
+func (cl *Client) VerifConns() ([]*Conn, bool) {
 	cl.lck.Lock()
 	defer cl.lck.Unlock()
 
-	out := make([]net.Conn, 0, cl.conns.Len())
+	out := make([]*Conn, 0, cl.conns.Len())
 	for e := cl.conns.Front(); e != nil; e = e.Next() {
-		out = append(out, e.Value.(*Conn).c)
+		out = append(out, e.Value.(*Conn))
 	}
 
 	return out, cl.closed
